@@ -23,7 +23,14 @@
                                  impossible events; value);
     `ctfTR_line4_of_parts`       the normalisation step of Algorithm 3 on top of it;
     `ctfTR_sound_of_parts`       Algorithm 3: the returned fraction is `P*(y_* | x_*)` given the two
-                                 marginalisation-and-independence identities (the named missing link of `ctfTR_sound`).
+                                 marginalisation-and-independence identities;
+    `ctfTR_sound_partial`        **the value clause for Algorithm 3**: both identities discharged (`ctfTR_link`:
+                                 composition axiom for the edges cut at conditioned ancestors, consistency of the members
+                                 of the ancestral sets, marginalisation, independence of the ancestral components that hold
+                                 no outcome) for every validated conditional query in the decidable class `ctfTRSoundClass`,
+                                 every compatible family in which the conditions have positive probability;
+    `ctfTR_zero_sound_partial`   Algorithm 3 answers `Zero()` only for impossible events (one-world `D_*`);
+    `ctfTR_correct_partial`      the three clauses of C09 for Algorithm 3 in one statement.
 
   Reading guide (definitions are short and meant to be read):
     Fscm.FscmFamily, FscmFamily.CompatibleWith, Proper, AgreesOutside, SelectionInert, Model.cfactor, FscmFamily.env
@@ -41,10 +48,20 @@
                                and every subscript its literal value under the value symbols `ν` ("the returned event's
                                values"; exists iff no name receives two values)
     Ctf.fillEvent q            every valueless item `(W_s, None)` becomes `(W_s, -W)`
+    ctfTRSoundClass g o c      decidable class of conditional queries (Y0/Model/CtfTr.lean), on graph and query only (one world
+                               across ALL ancestral components; outcomes found under their own name, two outcomes
+                               over one vertex identical; no self-intervention, consistent subscripts; no literal
+                               subscript names a vertex of the components unless it names a condition); the simplified
+                               `D_*` is then in `ctfSoundClass` (`dstar_in_ctfSoundClass`)
+    CondSem, cond_parts        the semantic core of Algorithm 3, free of syntax (Y0/Lemmas/CtfTrCondSem.lean,
+                               CtfTrCondSplit.lean)
 -/
 import Y0.Lemmas.CtfTrSoundFinal
 import Y0.Lemmas.CtfTrCond
 import Y0.Lemmas.CtfTrExampleFamily
+import Y0.Lemmas.CtfTrCondLink3
+import Y0.Lemmas.CtfTrCondJ
+import Y0.Lemmas.CtfTrCondDstarClass
 import Y0.Props.C09
 
 namespace Y0
@@ -307,6 +324,223 @@ theorem ctfTR_sound_of_parts (target : MG Name) (ds : List Domain) (o c : Event)
   rw [hsum (diff' dNames (eventNames (c ++ o))) (hsub _), hsum (diff' dNames (eventNames c)) (hsub _)]
   exact line4_normalise _ _ cOut Pjoint Pcond hc hnum hden
 
+/-- **C09, value clause, Algorithm 3 (ctfTR).**  Whenever `ctfTR` returns an expression `x` with an event, for a
+validated conditional query built by the public wrapper on a target graph built by `from_edges` with domains as declared,
+inside the decidable class `ctfTRSoundClass` (Y0/Model/CtfTr.lean, a predicate on target graph and query: one world across
+the ancestral components, outcomes found under their own name, no self-intervened variable, no literal subscript naming a
+summed vertex; that `D_*` is then in Algorithm 2's class `ctfSoundClass` is proved: `dstar_in_ctfSoundClass`) — then in EVERY family `F`
+of functional SCMs compatible with the target graph and the declared domains, for every reading `ν` of the value symbols
+and every valuation `σ` that carries the values and literal subscripts of the query (`EventReading ν σ (o ++ c)`: the
+returned event repeats the outcomes' and conditions' values on base variables; a subscript is read from the query), if
+the conditions have positive probability in the target domain, the returned fraction evaluated on the declared domain
+distributions is the target conditional probability `P*(outcomes ∧ conditions) / P*(conditions)`.
+
+Both identities of `ctfTR_sound_of_parts` are DISCHARGED (`ctfTR_link`, Y0/Lemmas/CtfTrCondLink3.lean): composition axiom
+for the cut edges of Def. 4.2, consistency of the members of the ancestral sets, marginalisation over the valueless
+ancestors and over the outcomes, independence of the two groups of ancestral components; `J = Q[V(D_*)]`
+(`dstar_prob_eq_cfactor`). -/
+theorem ctfTR_sound_partial (target : MG Name) (ds : List Domain) (o c : Event) (x : Expr) (rev : Event)
+    (h : ctfTR target ds o c = .ok (some (x, some rev)))
+    (hwf : target.WF) (hdecl : DomainsDeclared ds) (hplain : EventVarsPlain (o ++ c))
+    (hclass : ctfTRSoundClass target o c = true)
+    (F : FscmFamily) (graphs : Option Name → MG Name) (hF : F.CompatibleWith target graphs (declsOf ds))
+    (ν : BaseValues) (σ σ' : Val) (hσr : ∀ x, σ x < F.card x) (hσ : EventReading ν σ (o ++ c))
+    (hpos : probEventOpt F.target ν c ≠ 0) :
+    den (F.env graphs) σ' x σ = probEventOpt F.target ν (o ++ c) / probEventOpt F.target ν c := by
+  obtain ⟨dstar, dNames, q, simplified, h2, hu, _, _⟩ := ctfTR_answer_shape target ds o c x rev h
+  have hv : validateC target ds o c = .ok () := by
+    unfold ctfTR at h
+    cases hvc : validateC target ds o c with
+    | error e => rw [hvc] at h; cases h
+    | ok u => rfl
+  obtain ⟨hvalued, _, _, hnodes, _, _, _⟩ := validateC_facts target ds o c hv
+  -- the class: `D_*` is in Algorithm 2's class
+  have hlinkcls := hclass
+  have hcls : ctfSoundClass target (fillEvent simplified) = .ok true :=
+    dstar_in_ctfSoundClass target ds o c hv hwf hplain hclass dstar dNames h2 q simplified hu
+  obtain ⟨_, _, hDval, _, _⟩ := dstar_plain target ds o c hv hwf hplain dstar dNames h2
+  have hsimp := ctfTRu_event_is_simplified target ds dstar simplified q hu
+  have hvalev : ∀ p ∈ simplified, ∀ i, p.2 = some i → i.name = p.1.name := by
+    intro p hp i hi
+    obtain ⟨q0, hq0, hname, hval⟩ := simplify_output_values target dstar simplified hsimp p hp
+    rw [← hname]
+    exact hDval q0 hq0 i (by rw [hval]; exact hi)
+  -- the two identities
+  have hT := hF.target
+  obtain ⟨cOut, hnum, hden⟩ := ctfTR_link target hwf o c
+    (fun p hp => hnodes p (by rcases List.mem_append.1 hp with h' | h' <;> simp [h'])) hvalued hlinkcls dstar dNames h2
+    F.target hT.compat hT.wf.noise_sum F.card hT.wf.f_range ν σ hσ
+  have hc0 : cOut ≠ 0 := by
+    intro h0
+    rw [h0, mul_zero] at hden
+    exact hpos hden
+  have hJ : (fun τ => probEventOpt F.target (nuOf τ) (fillEvent simplified)) = localProb F.target dNames := by
+    funext τ
+    rw [dstar_prob_eq_cfactor target ds o c hv hwf hplain dstar dNames h2 q simplified hu F.target hT.compat τ]
+    obtain ⟨_, _, _, _, hDnodes⟩ := dstar_plain target ds o c hv hwf hplain dstar dNames h2
+    exact cfactor_eq_local hT.compat dNames (fun n hn => (hT.compat.perm.mem_iff).2 (hDnodes n hn)) τ
+  refine ctfTR_sound_of_parts target ds o c x rev h hwf hdecl hplain ?_ F graphs hF σ σ' hσr cOut _ _ hc0 ?_
+  · intro dstar' dNames' q' simplified' h2' hu'
+    rw [h2] at h2'
+    simp only [Except.ok.injEq, Prod.mk.injEq] at h2'
+    obtain ⟨rfl, rfl⟩ := h2'
+    rw [hu] at hu'
+    simp only [Except.ok.injEq, Option.some.injEq, Prod.mk.injEq] at hu'
+    obtain ⟨rfl, rfl⟩ := hu'
+    exact ⟨hcls, hvalev⟩
+  · intro dstar' dNames' q' simplified' h2' hu'
+    rw [h2] at h2'
+    simp only [Except.ok.injEq, Prod.mk.injEq] at h2'
+    obtain ⟨rfl, rfl⟩ := h2'
+    rw [hu] at hu'
+    simp only [Except.ok.injEq, Option.some.injEq, Prod.mk.injEq] at hu'
+    obtain ⟨rfl, rfl⟩ := hu'
+    rw [hJ]
+    exact ⟨hnum.symm, hden.symm⟩
+
+/-- **Zero only for impossible events, Algorithm 3** (one-world `D_*`): `ctfTR` answers `Zero()` only when two outcomes
+give one counterfactual variable two different values — then the queried event `outcomes ∧ conditions` has probability 0
+in every functional SCM compatible with the target graph, for every reading of the value symbols with `-X ≠ +X`.
+(Without `DstarOneWorld` the clause is FALSE of the current code: finding `cond:zero:multi_world`.) -/
+theorem ctfTR_zero_sound_partial (target : MG Name) (ds : List Domain) (o c : Event) (x : Expr)
+    (h : ctfTR target ds o c = .ok (some (x, none)))
+    (hwf : target.WF) (hplain : EventVarsPlain (o ++ c)) (hone : DstarOneWorld target o c = true)
+    (M : Fscm.Model) (ν : BaseValues) (hν : ν.Distinct) :
+    x = .zero ∧ probEventOpt M ν (o ++ c) = 0 := by
+  obtain ⟨hx, dstar, dNames, h2, hs⟩ := ctfTR_zero_only_from_simplify target ds o c x h
+  refine ⟨hx, ?_⟩
+  have hv : validateC target ds o c = .ok () := by
+    unfold ctfTR at h
+    cases hvc : validateC target ds o c with
+    | error e => rw [hvc] at h; cases h
+    | ok u => rfl
+  obtain ⟨_, _, _, hnodes, hvm, _, _⟩ := validateC_facts target ds o c hv
+  have hok : ∀ p ∈ o ++ c, VarOK target p.1 := by
+    intro p hp
+    refine ⟨hnodes p ?_, Or.inr ⟨(hplain p hp).2.1, (hplain p hp).1⟩⟩
+    rcases List.mem_append.1 hp with h' | h'
+    · exact List.mem_append_right _ h'
+    · exact List.mem_append_left _ h'
+  obtain ⟨D, dstar', dNames', hDv, h2', _, hfacts⟩ := line2C_ok target hwf o c
+    (fun p hp => hok p (List.mem_append_left _ hp)) (fun p hp => hok p (List.mem_append_right _ hp))
+  rw [h2] at h2'
+  simp only [Except.ok.injEq, Prod.mk.injEq] at h2'
+  obtain ⟨rfl, rfl⟩ := h2'
+  have hDnd : (D.map (·.name)).Nodup := by
+    unfold DstarOneWorld at hone
+    rw [hDv] at hone
+    simpa using hone
+  obtain ⟨_, hDrefl, _, _, _⟩ := dstar_plain target ds o c hv hwf hplain dstar dNames h2
+  -- two entries of `D_*` that minimise to the same variable carry different values
+  have hconf : ∃ w i j, i ≠ j ∧ (w, some i) ∈ o ∧ (w, some j) ∈ o := by
+    unfold simplify at hs
+    split at hs
+    · simp [bind, Except.bind, throw, throwThe, MonadExceptOf.throw] at hs
+    · simp only [bind, Except.bind] at hs
+      cases hme : minimizeEvent target dstar with
+      | error err => rw [hme] at hs; cases hs
+      | ok me =>
+        rw [hme] at hs
+        simp only at hs
+        have hmem := minimizeEvent_mem target dstar me hme
+        have hrefl' : ∀ p ∈ me, selfIntervened p.1 = false := by
+          rintro ⟨k, y⟩ hp
+          obtain ⟨v, hv', hm⟩ := (hmem k y).1 hp
+          have hwf' := minimize_wf target v k hm
+          have h0 := hDrefl (v, y) hv'
+          simp only [selfIntervened, List.any_eq_false, beq_iff_eq] at h0 ⊢
+          intro i hi
+          rw [hwf'.1]
+          exact h0 i (hwf'.2.2.1 i hi)
+        obtain ⟨k, i, j, hij, hi, hj⟩ := (simplifyCore_spec me hrefl').1 hs
+        obtain ⟨v, hvi, hmv⟩ := (hmem k (some i)).1 hi
+        obtain ⟨v', hvj, hmv'⟩ := (hmem k (some j)).1 hj
+        obtain ⟨p, hp, hpn, hpv, hpD⟩ := hfacts.value (v, some i) hvi i rfl
+        obtain ⟨p', hp', hpn', hpv', hpD'⟩ := hfacts.value (v', some j) hvj j rfl
+        have hnn : p.1.name = p'.1.name := by
+          rw [hpn, hpn']
+          show v.name = v'.name
+          rw [← (minimize_wf target v k hmv).1, ← (minimize_wf target v' k hmv').1]
+        have hsame : p.1 = p'.1 := List.inj_on_of_nodup_map hDnd hpD hpD' hnn
+        refine ⟨p.1, i, j, hij, ?_, ?_⟩
+        · rw [← hpv]; exact hp
+        · rw [hsame, ← hpv']; exact hp'
+  obtain ⟨w, i, j, hij, hi, hj⟩ := hconf
+  apply probEventOpt_zero
+  intro u hE
+  have e1 := hE (w, some i) (List.mem_append_left _ hi) i rfl
+  have e2 := hE (w, some j) (List.mem_append_left _ hj) j rfl
+  have hm : valueMismatch (c ++ o) = false := hvm
+  unfold valueMismatch at hm
+  simp only [List.any_eq_false] at hm
+  have n1 : i.name = w.name := by simpa using hm (w, some i) (List.mem_append_right _ hi)
+  have n2 : j.name = w.name := by simpa using hm (w, some j) (List.mem_append_right _ hj)
+  have hstar : i.star ≠ j.star := by
+    intro hst
+    apply hij
+    cases i; cases j
+    simp only at n1 n2 hst
+    subst hst
+    rw [n1, n2]
+  simp only at e1 e2
+  rw [e1] at e2
+  unfold ivValue at e2
+  rw [n1, n2] at e2
+  cases hb : i.star <;> cases hb' : j.star <;> rw [hb, hb'] at e2 hstar
+  · exact hstar rfl
+  · exact hν w.name e2
+  · exact hν w.name e2.symm
+  · exact hstar rfl
+
+/-- domains as declared carry a distribution over plain variables (`PopsPlain`: the hypothesis under which
+`OutcomesFound` is the only crash class of Algorithm 3, `ctfTR_no_internal_error_plain_partial`) -/
+theorem popsPlain_of_declared (ds : List Domain) (hdecl : DomainsDeclared ds) : PopsPlain ds := by
+  intro d hd
+  obtain ⟨t, ht⟩ := hdecl.pop d hd
+  rw [ht]
+  intro x hx
+  have hx' : x ∈ TrDsl.sortVars ((regular d.graph).map Var.plain) := hx
+  rw [CtfTr.mem_sortVars] at hx'
+  obtain ⟨n, _, rfl⟩ := List.mem_map.1 hx'
+  rfl
+
+/-- **C09 for Algorithm 3, the three clauses together.**  For a conditional query accepted by the validator, built by the
+public wrapper, on graphs built by `from_edges` with domains as declared and selection diagrams that agree with the target
+graph, in which every outcome is found in the ancestral components under its own name (`OutcomesFound`, the ONLY crash
+class of Algorithm 3 for declared domains): `ctfTR` raises no error, and its result is
+* FAIL, or
+* `Zero()` without an event — and then, if `D_*` names every vertex in one world, `outcomes ∧ conditions` has probability
+  0 in every functional SCM, or
+* an expression `x` with an event — and then, if the query is in the decidable class `ctfTRSoundClass`, `x` evaluated on
+  the declared domain distributions of ANY compatible family in which the conditions have positive probability, at ANY
+  valuation carrying the query's values and literal subscripts, is `P*(outcomes ∧ conditions) / P*(conditions)`. -/
+theorem ctfTR_correct_partial (target : MG Name) (ds : List Domain) (o c : Event)
+    (hv : validateC target ds o c = .ok ()) (hwf : target.WF) (hdecl : DomainsDeclared ds)
+    (hplain : EventVarsPlain (o ++ c)) (hdom : DomainsAgree target ds)
+    (hfound : OutcomesFound target o c = true) :
+    ctfTR target ds o c = .ok none ∨
+    (ctfTR target ds o c = .ok (some (.zero, none)) ∧
+      (DstarOneWorld target o c = true →
+        ∀ (M : Fscm.Model) (ν : BaseValues), ν.Distinct → probEventOpt M ν (o ++ c) = 0)) ∨
+    (∃ x rev, ctfTR target ds o c = .ok (some (x, some rev)) ∧
+      (ctfTRSoundClass target o c = true →
+        ∀ (F : FscmFamily) (graphs : Option Name → MG Name), F.CompatibleWith target graphs (declsOf ds) →
+        ∀ (ν : BaseValues) (σ σ' : Val), (∀ x, σ x < F.card x) → EventReading ν σ (o ++ c) →
+          probEventOpt F.target ν c ≠ 0 →
+          den (F.env graphs) σ' x σ = probEventOpt F.target ν (o ++ c) / probEventOpt F.target ν c)) := by
+  rcases ctfTR_answers_or_fails_plain target ds o c hv hwf hdecl.wf hdom hplain hfound
+      (popsPlain_of_declared ds hdecl) with ⟨⟨x, oev⟩, ha⟩ | hf
+  · cases oev with
+    | none =>
+      refine Or.inr (Or.inl ?_)
+      have hx := (ctfTR_zero_only_from_simplify target ds o c x ha).1
+      refine ⟨by rw [ha, hx], fun hone M ν hν => ?_⟩
+      exact (ctfTR_zero_sound_partial target ds o c x ha hwf hplain hone M ν hν).2
+    | some rev =>
+      refine Or.inr (Or.inr ⟨x, rev, ha, fun hclass F graphs hF ν σ σ' hσr hσ hpos => ?_⟩)
+      exact ctfTR_sound_partial target ds o c x rev ha hwf hdecl hplain hclass F graphs hF ν σ σ' hσr hσ hpos
+  · exact Or.inl hf
+
 -- OPEN: ctfTRu_sound (ALL validated inputs)
 --   FALSE of the current code outside `ctfSoundClass` (known findings value:two_values / multi_world / literal_bound /
 --   reflexive, inherited from C19's factorisation findings) — see the witnesses in corpus/C09.  Inside the class the
@@ -316,13 +550,24 @@ theorem ctfTR_sound_of_parts (target : MG Name) (ds : List Domain) (o c : Event)
 --   * the model class of Y0/Spec/CtfFamilySpec.lean: positive discrete functional SCMs, selection nodes inert, a source
 --     domain differs from the target only in the mechanisms of `Δ` (a differing noise distribution is represented by
 --     extra exogenous variables that the target does not read).
--- OPEN: ctfTR_sound
+-- OPEN: ctfTR_sound (ALL validated conditional queries)
 --   theorem ctfTR_sound (h : ctfTR target ds outcomes conditions = .ok (some (x, some rev))) … :
 --       den (F.env graphs) σ' x σ = probEventOpt F.target ν (outcomes ++ conditions) / probEventOpt F.target ν conditions
---   Reduced (`ctfTR_line4_of_parts` + `ctfTRu_sound_fun`) to the two identities `hnum`, `hden` above: marginalising the
---   valueless ancestors of `D_*` and the outcomes out of `P*_τ(D_* = τ)`, and the independence of the conditions in
---   ancestral components without an outcome.  FALSE of the current code on the inputs of the open findings
---   cond:value:outcome-lookup-miss / outcome-also-condition (an outcome is dropped from `D_*`).
+--   PROVED inside the decidable class `ctfTRSoundClass` (`ctfTR_sound_partial`; both identities of `ctfTR_sound_of_parts`
+--   are discharged by `ctfTR_link`).  Outside the class:
+--   * FALSE of the current code on the inputs of the open findings cond:value:outcome-lookup-miss / outcome-also-condition
+--     (an outcome is dropped from `D_*`: `OutcomesFound = false`), cond:value:two_values (no reading exists),
+--     cond:value:multi_world (a vertex in two worlds: the class asks for ONE world across all ancestral components),
+--     cond:value:literal_bound (a literal subscript naming a summed vertex);
+--   * NOT DECIDED where the class is stricter than the code needs (quick stream, seed 0: 1322 answered conditional cases
+--     with an event, 379 in the class, 175 without any reading; tools/c09_condclass.py): a literal subscript that names a
+--     vertex of the components which is not a condition (65 cases excluded by this clause alone, 61 accepted by the oracle:
+--     e.g. the subscript names an OUTCOME with the same value, `P(Y_x = y, X = x | Z = z)` — the denominator's sum over `X`
+--     also moves the subscript, harmless by composition — or sits on a condition whose component holds no outcome), a vertex
+--     in two worlds on which the vertex-wise bookkeeping happens to be right, e.g. `P(Y_x = y | X = x, Y = y)` (15, all
+--     accepted), an outcome not found under its own name that is dropped without changing the value (27, 15 accepted).
+--     The cases without a reading (a name with two value symbols: finding cond:value:two_values) are outside every reading
+--     of "the returned event's values".
 
 /-! ## Non-vacuity: a two-domain family on `X → Y` with a selection node on `X`
 
@@ -349,6 +594,38 @@ example : den (exFam.env exFGraphs) exFSigma exFExpr exFSigma = probEventOpt exF
     (by intro n; simp [exFNu]) exFSigma exFSigma
     (by intro x; show 0 < exFCard x; unfold exFCard; split <;> decide)
     ⟨by decide, by decide⟩
+
+/-! ### Algorithm 3 on the same family: `P*(Y = y | X = x)`.  `X` is a conditioned ancestor of `Y`: the edge `X → Y` is cut
+(Def. 4.2), `D_* = {Y_x}`, the answer is `P^{π¹}(Y | X) / Σ_Y P^{π¹}(Y | X)` with the event `Y = y, X = x` -/
+
+example : validateC exFG [exFDom] exJO exJC = .ok () := exJ_validated
+example : ctfTRSoundClass exFG exJO exJC = true := by decide +kernel
+example : probEventOpt exFT exFNu exJC ≠ 0 := by decide +kernel
+
+theorem isAnswerWithEvent_iff (r : Except Err (Option Answer)) (h : isAnswerWithEvent r = true) :
+    ∃ x ev, r = .ok (some (x, some ev)) := by
+  unfold isAnswerWithEvent at h
+  split at h
+  · exact ⟨_, _, rfl⟩
+  · cases h
+
+/-- the value clause of Algorithm 3 applied to the concrete family: the returned fraction, read on the SOURCE model, is
+the target conditional probability `P*(Y = 0 | X = 0)` -/
+example : ∃ x rev, ctfTR exFG [exFDom] exJO exJC = .ok (some (x, some rev)) ∧
+    den (exFam.env exFGraphs) exFSigma x exFSigma =
+      probEventOpt exFT exFNu (exJO ++ exJC) / probEventOpt exFT exFNu exJC := by
+  obtain ⟨x, rev, h⟩ := isAnswerWithEvent_iff (ctfTR exFG [exFDom] exJO exJC) (by decide +kernel)
+  exact ⟨x, rev, h, ctfTR_sound_partial exFG [exFDom] exJO exJC x rev h (MG.wf_fromEdges _ _ _) exFDom_declared
+    exJ_plain (by decide +kernel) exFam exFGraphs exFam_compatible exFNu exFSigma exFSigma
+    (by intro x; show 0 < exFCard x; unfold exFCard; split <;> decide)
+    ⟨by decide, by decide⟩ (by decide +kernel)⟩
+
+/-- Example 4.5-like `P*(y_x | x')` of the corpus (figure 2a) is OUTSIDE the class: `X` receives the two values `x`
+(subscript) and `x'` (condition), no valuation reads the query (`readingExists` is false; finding cond:value:two_values) -/
+example : readingExists (a3Out ++ a3Cond) = false := by decide
+/-- `P*(y_x | z)` on figure 2a (corpus; `Z` is a conditioned ancestor of `Y_x`: a cut edge, `W_x`, `Z` and `Y_{x}` in one
+world) is inside the class -/
+example : ctfTRSoundClass fig2a a3Out [({ name := 3 }, some ⟨3, false⟩)] = true := by decide +kernel
 
 /-- Example 4.2 of the paper (`P*(y_x, x)` on figure 2a, two source domains) is inside the class -/
 example : ctfSoundClass (MG.fromEdges [] [(3, 1), (3, 2), (1, 2), (1, 0), (0, 2)] [(3, 1), (0, 2)])
